@@ -23,6 +23,32 @@ THEOREMS = [
     "Typedpy.C03.run_wellformed_current",
     "Typedpy.C03.machine_example",
     "Typedpy.C03.nested_counterexample",
+    "Typedpy.C03.stepB_err_unchanged",
+    "Typedpy.C03.stepB_err_class",
+    "Typedpy.C03.stepB_wf",
+    "Typedpy.C03.runB_wellformed",
+    "Typedpy.C03.runB_failures_atomic",
+    "Typedpy.C03.full_statement_bound",
+    "Typedpy.C03.full_statement_unbound_false",
+    "Typedpy.C03.nested_exclusion_exact",
+    "Typedpy.C03.runB_wellformed_current",
+    "Typedpy.C03.callRef_attrs",
+    "Typedpy.C03.stepR_err_unchanged",
+    "Typedpy.C03.stepR_wf",
+    "Typedpy.C03.runR_wellformed",
+    "Typedpy.C03.nested_counterexample_deque_append",
+    "Typedpy.C03.nested_counterexample_deque_appendleft",
+    "Typedpy.C03.nested_counterexample_dict_setitem",
+    "Typedpy.C03.nested_bound_example",
+    "Typedpy.C03.stale_reference_example",
+    "Typedpy.C03.slice_sort_example",
+    "Typedpy.C03.delitemH_facts",
+    "Typedpy.C03.delitemH_hook",
+    "Typedpy.C03.setattr_field_hook",
+    "Typedpy.C03.stepB_hook",
+    "Typedpy.C03.runB_hook_partial",
+    "Typedpy.C03.refCall_facts",
+    "Typedpy.C03.delitem_skips_hook",
 ]
 RULE = ("mutable (and field-immutable) classes biased to Array/Deque/Map fields incl. nested typed wrappers; start "
         "instance valid; histories of <=6 (quick) / <=20 (thorough) ops drawn from setattr(valid|invalid|None), del, "
@@ -137,11 +163,13 @@ def judge_postcheck(case, impl):
 
 def cases(rng, tier):
     return S.gen_cases(rng, tier, 500 if tier == "quick" else 6000, immutable=False) \
-        + postcheck_cases(rng, 300 if tier == "quick" else 5000) + W.cases() + S.immhook_cases()
+        + postcheck_cases(rng, 300 if tier == "quick" else 5000) + W.cases() + S.immhook_cases() \
+        + S.gen_cases_ext(rng, tier, 350 if tier == "quick" else 4000, immutable=False)
 
 
 def search_cases(rng, tier):
-    return S.gen_cases(rng, "thorough", 500, immutable=False) + postcheck_cases(rng, 1000)
+    return S.gen_cases(rng, "thorough", 500, immutable=False) + postcheck_cases(rng, 1000) \
+        + S.gen_cases_ext(rng, "thorough", 300, immutable=False)
 
 
 def _p(case):
@@ -191,8 +219,14 @@ def judge(case, impl, model):
         return msg, fails
     prev = impl["start"]
     wf = model.get("implWf", [])
+    taken = []     # the field each kept reference (successful take) is bound to
     for i, (op, st) in enumerate(S.kept_steps(case, impl)):
+        if op["op"] == "callRef" and op["i"] < len(taken) and taken[op["i"]]:
+            op = dict(op, f=taken[op["i"]])
         site = S.op_site(case, op)
+        dead_ref = op["op"] in ("callRef", "assignRef") and (op["i"] >= len(taken) or not taken[op["i"]])
+        if op["op"] == "take":
+            taken.append(op["f"] if st["out"] == "ok" else None)
         if st["out"] == "ok":
             # wf[0] is the start state; blame an op only if the state before it was well-formed
             if i + 1 < len(wf) and wf[i] and not wf[i + 1]:
@@ -200,8 +234,8 @@ def judge(case, impl, model):
                               f"{json.dumps(op)[:200]} succeeded and left the instance invalid: " + json.dumps(st["state"])[:300]))
             # the class's own __validate__ hook (generated: raises when a listed field holds a listed value) must accept
             # the state every successful operation leaves behind
-            held = _hook_rejects(case.get("hook"), st["state"])
-            if held and not _hook_rejects(case.get("hook"), prev):
+            held = _hook_rejects(case.get("hook"), st["state"], case.get("hookNeed"))
+            if held and not _hook_rejects(case.get("hook"), prev, case.get("hookNeed")):
                 fails.append((f"unvalidated:hook:{site}",
                               f"{json.dumps(op)[:200]} succeeded although the class's __validate__ hook rejects the resulting instance "
                               f"({held[0]} == {json.dumps(held[1])[:80]}): " + json.dumps(st["state"])[:300]))
@@ -214,17 +248,32 @@ def judge(case, impl, model):
                 pass    # the field is not set: there is no value to apply the operation to (not in the claim)
             elif st["out"] == "AttributeError" and op["op"] == "call" and not _holds_collection(prev, op["f"]):
                 pass    # an AnyOf field currently holding a scalar: the value exposes no such method (not in the claim)
+            elif st["out"] == "AttributeError" and op["op"] == "take":
+                pass    # nothing to take a reference to (harness-raised: field unset / holds no wrapper)
+            elif st["out"] == "AttributeError" and dead_ref:
+                pass    # no such reference (harness-raised)
+            elif st["out"] == "AttributeError" and "m" in op and _no_such_method(site):
+                pass    # the native type has no such mutator (deque.sort): nothing was attempted
             elif st["out"] not in S.ALLOWED_ERRORS:
                 fails.append((f"error-class:{site}", f"{json.dumps(op)[:200]} raised {st['out']}: {st.get('msg')}"))
         prev = st["state"]
     return msg, fails
 
 
-def _hook_rejects(hooks, state):
+def _no_such_method(site):
+    kind, _, m = site.rpartition("-")[2].partition(".")
+    tbl = S.table()
+    return kind in tbl and m not in tbl[kind]
+
+
+def _hook_rejects(hooks, state, need=None):
     for f, v in hooks or []:
         for k, cur in state["o"][1]:
             if k == f and cur is not None and dump.canon(cur) == dump.canon(v):
                 return (f, v)
+    for group in need or []:
+        if not any(k in group and cur is not None for k, cur in state["o"][1]):
+            return (group[0], "<none of " + ",".join(group) + " holds a value>")
     return None
 
 
